@@ -7,6 +7,10 @@ ID=$1; N=$2; shift 2; XF="$*"
 low=$(echo $ID | tr A-Z a-z)
 SRC=/tmp/mut_${low}_$N/MUTANT
 OUT=/verif/seeded/${ID}_$N; mkdir -p $OUT
+# re-confirmation of an already kept change (the agent's scratch directory is gone): take the files from seeded/<id>/ itself
+if [ ! -d $SRC ] && [ -f $OUT/patch.diff ]; then
+  SRC=/tmp/keep_src_$$; rm -rf $SRC; mkdir -p $SRC; cp $OUT/patch.diff $OUT/demo.* $SRC/ 2>/dev/null; cp $OUT/agent_meta.json $SRC/meta.json
+fi
 cp $SRC/patch.diff $OUT/; cp $SRC/demo.* $OUT/ 2>/dev/null; cp $SRC/meta.json $OUT/agent_meta.json
 WT=/tmp/wt_keep_${low}_$N; rm -rf $WT; git -C /repo worktree prune; git -C /repo worktree add -q $WT HEAD || exit 2
 if ! git -C $WT apply $OUT/patch.diff; then echo "PATCH DOES NOT APPLY to HEAD"; git -C /repo worktree remove --force $WT; exit 2; fi
@@ -27,7 +31,7 @@ fi
 ( cd $WT && cmake -S . -B _build -G Ninja -DBUILD_TESTS=ON -DCMAKE_BUILD_TYPE=RelWithDebInfo -DCMAKE_PREFIX_PATH=/root/miniconda -DCMAKE_CXX_FLAGS=-Wno-error >/dev/null 2>&1 && cmake --build _build -j6 >/dev/null 2>&1; ctest --test-dir _build -j8 --timeout 900 2>&1 | grep -E "tests passed|tests failed" ) > /tmp/keep_ut_$$.log 2>&1
 UT=$(cat /tmp/keep_ut_$$.log)
 rm -rf $WT/_build $WT/bin
-CHECK=$(cd /verif && VERIF_REPO=$WT timeout 3000 ./check.py $ID --tier quick 2>&1 | grep -E "VIOLATION|KNOWN-FINDING|why:|no longer shown|INTERNAL| (OK|FAIL) tier" | cut -c1-500 | head -8)
+CHECK=$(cd /verif && VERIF_EVIDENCE_DIR=/verif/build/evidence_scratch VERIF_REPO=$WT timeout 3000 ./check.py $ID --tier quick 2>&1 | grep -E "VIOLATION|KNOWN-FINDING|why:|no longer shown|INTERNAL| (OK|FAIL) tier" | cut -c1-500 | head -8)
 git -C /repo worktree remove --force $WT
 python3 - "$ID" "$N" "$DEMO_ORIG" "$DEMO_MUT" "$UT" "$CHECK" "$OUT" <<'PY'
 import json, sys
@@ -45,4 +49,4 @@ meta = {"property": pid, "summary": am.get("summary"), "mechanism": am.get("mech
 json.dump(meta, open(out + "/meta.json", "w"), indent=1)
 print(pid, n, "| demo HEAD rc", do, "| demo mutant rc", dm, "|", ut.strip(), "|", verdict)
 PY
-rm -f /tmp/keep_*_$$*
+rm -rf /tmp/keep_*_$$*
